@@ -114,7 +114,7 @@ if __name__ == "__main__":
         c02(); sys.exit(0)
     if which == "C01":
         imports = ("Scalar Rops Sums Deriv Dual DualProofs Drag DragDeriv Stress StressDeriv StressProofs Transfer TransferDeriv Loads LoadsDeriv "
-                   "Functionals FunctionalsDeriv Aero AeroDeriv PG PGDeriv Beam BeamTables BeamDeriv Geom GeomDeriv Misc MiscDeriv MultiSec MultiSecDeriv Wingbox WingboxDeriv")
+                   "Functionals FunctionalsDeriv Aero AeroDeriv PG PGDeriv Beam BeamTables BeamDeriv Geom GeomDeriv Misc MiscDeriv MultiSec MultiSecDeriv Wingbox WingboxDeriv Small SmallDeriv")
         items = [
             ("C01_dual_number_tangent_is_the_partial_derivative", "DR_partial", "the meaning of every statement below: the tangent part of the dual-number evaluation is the coordinate partial derivative"),
             ("C01_seeded_coordinate", "DR_upd1", None),
@@ -213,6 +213,11 @@ if __name__ == "__main__":
             ("C01_WingboxGeometry_streamwise_chords", "wg_sw_DR", "structures/wingbox_geometry.py (partials declared by finite differences)"),
             ("C01_WingboxGeometry_fem_chords", "wg_fem_chord_DR", None),
             ("C01_WingboxGeometry_fem_twists", "wg_fem_twist_DR", "only where both end sections are twisted (wg_twisted): the arccosine twist measure has a kink at zero twist - finding F13"),
+            ("C01_SparWithinWing", "spar_within_wing_DR", "structures/spar_within_wing.py: mesh, radius AND t_over_c"),
+            ("C01_SparWithinWing_t_over_c_partial_is_not_zero", "spar_within_wing_toc_partial_nonzero", "what the unrepaired component reported (no declared partial, i.e. zero) was wrong: fixed finding F14"),
+            ("C01_TotalLift", "total_lift_DR", None),
+            ("C01_MultiCD", "multi_cd_DR", "integration/multipoint_comps.py, any number of flight points"),
+            ("C01_PanelForcesSurf", "panel_forces_surf_DR", "the block of the global panel-force array of one surface (offset = panels of the surfaces before it)"),
             ("C01_WingboxGeometry_twist_measure_refuted_at_zero_twist", "wg_theta_not_differentiable_at_zero_twist", "the hypothesis wg_twisted cannot be dropped: at an untwisted section (the default mesh) the twist measure is |twist|, which has no derivative; the code nevertheless reports one (finding F13, replayed on the implementation by the oracle WingboxGeometry.untwisted-sections)"),
         ]
         hdr = "C01 - analytic component derivatives equal the true derivatives.  Property theorems only (statements printed by Coq from the libraries Real/*Deriv.v).  DR g t0 p  :=  g t0 = fst p /\\ is_derive g t0 (snd p);  every theorem says: along ANY differentiable curve of the inputs, the dual-number evaluation of the component model gives the value and the derivative - hence every partial derivative (C01_dual_number_tangent_is_the_partial_derivative) and, by composition, every chain of components"
